@@ -7,23 +7,24 @@
    The string to assign is part of the state (st.buf) and is typed one class at a time (DoType, a model-internal
    step that is not an API call and does not enter the history): every string is reached exactly once per body, TLC
    spreads the states over its workers and never enumerates a set of tens of thousands of sequences.
-   With VIEW ViewSt every distinct (body, buf) is expanded once, so for DEPTH > 1 every (reachable body, action) pair is
-   emitted with one shortest history leading to it.  The driver appends the save/re-open cycles (the model's SaveReopen
+   With VIEW ViewSt every distinct (body, buf, number of actions so far) is expanded once, so for DEPTH > 1 every
+   (reachable body, action) pair is emitted with one history leading to it; st.n (the number of API actions taken) is in the
+   state so that the set of emitted scenarios does not depend on the order in which TLC's workers find the states.  The driver appends the save/re-open cycles (the model's SaveReopen
    is the identity on the body, a self-loop under the view).                                                         *)
 EXTENDS TextBody, Json
 CONSTANTS MAXLEN, ALPHA, PRIORS, SITES, DEPTH, BUILD
 VARIABLES st, hist
 
 Init == \E p \in PRIORS, site \in SITES :
-          /\ st = [site |-> site, body |-> Prior(p, site), buf |-> <<>>]
+          /\ st = [site |-> site, body |-> Prior(p, site), buf |-> <<>>, n |-> 0]
           /\ hist = << [op |-> "Prior", id |-> p, site |-> site] >>
 
-DoType == /\ Len(hist) <= DEPTH /\ Len(st.buf) < MAXLEN
+DoType == /\ st.n < DEPTH /\ Len(st.buf) < MAXLEN
           /\ \E c \in ALPHA : st' = [st EXCEPT !.buf = Append(@, c)]
           /\ UNCHANGED hist
 
-Step(a) == /\ Len(hist) <= DEPTH
-           /\ st' = [st EXCEPT !.body = ImplBody(st.body, a), !.buf = <<>>]
+Step(a) == /\ st.n < DEPTH
+           /\ st' = [st EXCEPT !.body = ImplBody(st.body, a), !.buf = <<>>, !.n = @ + 1]
            /\ hist' = Append(hist, a)
            /\ PrintT(<<"CASE", ToJson(hist')>>)
 
@@ -38,7 +39,7 @@ DoAddPara      == BUILD /\ Idle /\ Len(st.body) < 3 /\ Step([op |-> "AddPara"])
 DoAddRun       == BUILD /\ Idle /\ \E i \in 1..Len(st.body) : Len(st.body[i].items) < 4 /\ \E s \in {<<>>, <<SP>>, <<PLAIN, NL>>} : Step([op |-> "AddRun", i |-> i, s |-> s])
 DoAddBreak     == BUILD /\ Idle /\ \E i \in 1..Len(st.body) : Len(st.body[i].items) < 4 /\ Step([op |-> "AddBreak", i |-> i])
 DoSetParaProp  == BUILD /\ Idle /\ \E i \in 1..Len(st.body), v \in 1..3 : Step([op |-> "SetParaProp", i |-> i, v |-> v])
-DoSaveReopen   == Idle /\ Len(hist) <= DEPTH /\ st' = st /\ hist' = Append(hist, [op |-> "SaveReopen"])
+DoSaveReopen   == Idle /\ st.n < DEPTH /\ st' = st /\ hist' = Append(hist, [op |-> "SaveReopen"])
 Next == DoType \/ DoSetFrame \/ DoSetCell \/ DoSetShapeText \/ DoSetPara \/ DoSetRun \/ DoAddPara \/ DoAddRun \/ DoAddBreak
         \/ DoSetParaProp \/ DoSaveReopen
 Spec == Init /\ [][Next]_<<st, hist>>
